@@ -110,6 +110,29 @@ func HarnessC18AddRow() {
 		}
 	}
 	verifAssert(verifCount(idx, &ExprNot{Expr: &ExprEqual{Column: "a", Value: "nope"}}) == uint64(n), "C18: the index must hold exactly one row per AddRow call")
+	// the schema is the one a sequential insertion produces: columns a and t, every value added
+	wantA := []string{"x", "y"}
+	var wantT []string
+	for g := 0; g < G; g++ {
+		for i := 0; i < k; i++ {
+			wantT = append(wantT, tag(g, i)) // g00 g01 g10 g11: ascending
+		}
+	}
+	sch := idx.GetSchema()
+	ok := len(sch.Columns) == 2 && sch.Columns[0].Name == "a" && sch.Columns[1].Name == "t" &&
+		len(sch.Columns[0].Values) == len(wantA) && len(sch.Columns[1].Values) == len(wantT)
+	if ok {
+		for i, v := range wantA {
+			ok = ok && sch.Columns[0].Values[i].Value == v
+		}
+		for i, v := range wantT {
+			ok = ok && sch.Columns[1].Values[i].Value == v
+		}
+	}
+	verifAssert(ok, "C18: the schema of the flushed index is not the one a sequential insertion of the same rows produces")
+	// and grouping by the tag column finds every row
+	res, err := idx.Execute(&Query{Expr: &ExprNot{Expr: &ExprEqual{Column: "a", Value: "nope"}}, GroupBy: []string{"t"}})
+	verifAssert(err == nil && res != nil && len(res.Groups) == n, "C18: grouping the flushed index by the tag column must yield one group per added row")
 	idx.Close()
 	verifReach("end")
 }
@@ -252,7 +275,11 @@ func verifCheckBoundaryRows(tag string, idx *Index, n int, tagOf func(id int) st
 func HarnessC05Boundary() {
 	out := verifTempPath("c05b.updog")
 	bw, closeDBs := verifBigWriter(out, verifTempPath("c05b.tmp"))
-	n := 1002
+	k := 1
+	if verifTier() > 0 {
+		k += verifChoice("thousands", 2)
+	}
+	n := 1000*k - 1 + verifChoice("around-batch", 4) // 999..1002 (thorough: also 1999..2002)
 	for i := 0; i < n; i++ {
 		id, err := bw.AddRow(map[string]string{"t": verifTag4(i), "a": []string{"x", "y"}[i%2]})
 		if err != nil || id != uint32(i) {
@@ -267,7 +294,7 @@ func HarnessC05Boundary() {
 	if err != nil {
 		return
 	}
-	verifCheckBoundaryRows("C05 big writer, 1002 rows", idx, n, verifTag4)
+	verifCheckBoundaryRows("C05 big writer, 999..1002 rows", idx, n, verifTag4)
 	idx.Close()
 	verifReach("end")
 }
